@@ -2,6 +2,7 @@ package props
 
 import (
 	"bytes"
+	"encoding/binary"
 	"encoding/json"
 	"fmt"
 	"os"
@@ -32,6 +33,7 @@ func init() {
 			"gen1=Decode(x); bytes1=Encode(gen1); gen2=Decode(bytes1); bytes2=Encode(gen2); gen3=Decode(bytes2). Oracle: Encode neither panics nor fails, CheckIntegrity(bytes1) passes, gen2 has gen1's per-member counts and equal values (strings/arrays up to profile length, local time by wall clock), gen3 equals gen2. distinct = distinct accepted input streams",
 		Assumptions: []string{"accumulated component destinations are excluded when their source is present (C18's listed findings make them history dependent)"},
 		Run:         runC07,
+		Sub:         func(args []string) { tzSub(args) },
 		QuickBudget: 240,
 		Replay: func(raw json.RawMessage) (string, error) {
 			var r c07Replay
@@ -312,6 +314,12 @@ func c07check(x []byte, big bool, knowns *[][2]string) (string, string, bool) {
 		return "", "", false
 	}
 	g1 := r1.File
+	// generation 1 is what Decode returned: the comparison below uses a second decode of x that Encode never saw, so
+	// that an Encode which writes into the File it is given cannot make the two sides agree
+	g1ref := g1
+	if rr := safeDecode(bytes.NewReader(x)); rr.Err == nil && rr.Panic == "" {
+		g1ref = rr.File
+	}
 	b1, err, pn := safeEncode(g1, big)
 	if pn != "" {
 		return "Encode of a decoded File panics: " + pn, "encode-panic", true
@@ -336,7 +344,7 @@ func c07check(x []byte, big bool, knowns *[][2]string) (string, string, bool) {
 	if r2.Err != nil || r2.Panic != "" {
 		return fmt.Sprintf("Decode of the re-encoded bytes fails: %v %s", r2.Err, r2.Panic), "redecode", true
 	}
-	msg12, class12 := c07CompareFiles(g1, r2.File, false)
+	msg12, class12 := c07CompareFiles(g1ref, r2.File, false)
 	if msg12 != "" {
 		if !c07KnownClasses[class12] {
 			return "generation 2 differs from generation 1: " + msg12, class12, true
@@ -361,6 +369,7 @@ func c07check(x []byte, big bool, knowns *[][2]string) (string, string, bool) {
 }
 
 func runC07(w *vx.W) {
+	procsFamily(w, "C07", "encode")
 	var k int64
 	feed := func(source string, x []byte, path string) {
 		k++
@@ -467,6 +476,37 @@ func runC07(w *vx.W) {
 		}
 		return true
 	})
+	// (2b) placement of a local time: before or after its message's own timestamp (or alone), after a record whose
+	// timestamp is a few seconds or minutes away, at zone offsets on and next to whole quarter hours
+	for _, order := range []int{0, 1, 2} {
+		for _, d := range []int{-3, 0, 3, 47} {
+			for _, off := range []int{0, 3, 3600, 3613, 12307, -897, 898, 35999, -39600} {
+				for _, big := range []bool{false, true} {
+					var bo binary.ByteOrder = binary.LittleEndian
+					if big {
+						bo = binary.BigEndian
+					}
+					u32 := func(v int) []byte { return fitmodel.PutUint(bo, 4, uint64(uint32(v))) }
+					ts, local := int(T)+60, int(T)+60+off
+					ad := fitmodel.Def{Local: 2, Big: big, Global: 34}
+					var pl []byte
+					switch order {
+					case 0:
+						ad.Fields = []fitmodel.FieldDef{{Num: 5, Size: 4, Base: fitmodel.Uint32}, {Num: 253, Size: 4, Base: fitmodel.Uint32}}
+						pl = append(u32(local), u32(ts)...)
+					case 1:
+						ad.Fields = []fitmodel.FieldDef{{Num: 253, Size: 4, Base: fitmodel.Uint32}, {Num: 5, Size: 4, Base: fitmodel.Uint32}}
+						pl = append(u32(ts), u32(local)...)
+					case 2:
+						ad.Fields = []fitmodel.FieldDef{{Num: 5, Size: 4, Base: fitmodel.Uint32}}
+						pl = u32(local)
+					}
+					recs := append(fitmodel.FileIdRecords(0, 4), recordDef(1, big).Bytes(), recordData(1, big, uint32(ts+d), 70, 100), ad.Bytes(), fitmodel.Data(2, pl))
+					feed(fmt.Sprintf("local-placement:order%d ref%+ds zone%+ds", order, d, off), fitmodel.File(fitmodel.DefaultHeader, recs...), "")
+				}
+			}
+		}
+	}
 	// (3) slot words
 	a13 := c13Alphabet([]byte{0, 1, 3})
 	seqWords(len(a13), 2, func(int64) bool { return true }, func(word []int) bool {
@@ -490,7 +530,7 @@ func runC07(w *vx.W) {
 					}
 					parts := fitmodel.FileIdRecords(0, ft)
 					for i, m := range msgs {
-						rec, _ := m.wire(byte(1+i), false, ft)
+						rec, _ := m.wire(byte(1+i), false, ft, false)
 						parts = append(parts, rec)
 					}
 					feed(fmt.Sprintf("c18:csd %02x %02x speed=%v", b1, b2, withSpeed), fitmodel.File(fitmodel.DefaultHeader, parts...), "")
@@ -501,14 +541,14 @@ func runC07(w *vx.W) {
 	for _, ev := range []uint64{uint64(fit.EventSportPoint), uint64(fit.EventRearGearChange), uint64(fit.EventTimer)} {
 		for _, d := range []uint64{0x01020304, 0xFFFFFFFF} {
 			m := c18Msg{21, []c18Field{fU("Event", 1, ev), fU("Data", 4, d), fU("Data16", 2, 0x0A0B)}}
-			rec, _ := m.wire(1, true, 4)
+			rec, _ := m.wire(1, true, 4, false)
 			feed("c18:event", fitmodel.File(fitmodel.DefaultHeader, append(fitmodel.FileIdRecords(0, 4), rec)...), "")
 		}
 	}
 	for _, m := range []uint16{18, 19, 142} {
 		for _, ft := range hostedIn(m) {
 			mm := c18Msg{m, []c18Field{fU("AvgAltitude", 2, 0x1234), fU("MaxAltitude", 2, 0xFFFF), fU("MinAltitude", 2, 0)}}
-			rec, _ := mm.wire(1, false, ft)
+			rec, _ := mm.wire(1, false, ft, false)
 			feed("c18:altitudes", fitmodel.File(fitmodel.DefaultHeader, append(fitmodel.FileIdRecords(0, ft), rec)...), "")
 		}
 	}
